@@ -149,3 +149,115 @@ Proof.
     destruct (enabled o PRespH); cbn [negb andb]; [|reflexivity].
     destruct (N.eqb w (resolve o PRespH)); reflexivity.
 Qed.
+
+(* ---------- Stop with exchanges in flight ---------- *)
+Definition sinv (async : bool) (st : sstate) : Prop :=
+  ((s_running st = false \/ s_stopped st = true \/ async = false) -> tasks_of (s_q st) = []) /\
+  (In None (s_q st) -> s_stopped st = true).
+
+Lemma tasks_of_app a b : tasks_of (a ++ b) = tasks_of a ++ tasks_of b.
+Proof. unfold tasks_of. apply flat_map_app. Qed.
+
+Lemma sstep_inv async st op :
+  sinv async st ->
+  sinv async (sstep async st op) /\
+  s_out (sstep async st op) ++ tasks_of (s_q (sstep async st op)) =
+  (s_out st ++ tasks_of (s_q st)) ++ match op with SDump t => [t] | _ => [] end.
+Proof.
+  intros [K L]. destruct st as [run stp q out]. unfold sinv. cbn [s_running s_stopped s_q s_out] in *.
+  destruct op as [t| | |]; cbn [sstep s_running s_stopped s_q s_out].
+  - destruct (async && run && negb stp) eqn:C; cbn [s_running s_stopped s_q s_out].
+    + apply Bool.andb_true_iff in C as [C1 C3]. apply Bool.andb_true_iff in C1 as [C0 C2].
+      apply Bool.negb_true_iff in C3. subst. split; [split|].
+      * intros [H|[H|H]]; discriminate.
+      * intro H. apply in_app_or in H as [H|[H|[]]]; [now apply L|discriminate].
+      * rewrite tasks_of_app. cbn [tasks_of flat_map app]. now rewrite app_assoc.
+    + split; [split; assumption|]. rewrite <- !app_assoc.
+      assert (tasks_of q = []) as ->.
+      { apply K. destruct run; [|now left]. destruct stp; [right; now left|].
+        destruct async; [discriminate C|right; now right]. }
+      now rewrite !app_nil_r.
+  - unfold sdrain. cbn [s_running s_stopped s_q s_out]. destruct run.
+    2:{ split; [split; [exact K|exact L]|now rewrite app_nil_r]. }
+    destruct q as [|[t|] q]; cbn [s_running s_stopped s_q s_out].
+    + split; [split; [exact K|exact L]|cbn [tasks_of flat_map]; now rewrite !app_nil_r].
+    + split; [split|].
+      * intro H. assert (X : tasks_of (Some t :: q) = []).
+        { apply K. destruct H as [H|H]; [discriminate|now right]. }
+        discriminate.
+      * intro H. apply L. now right.
+      * cbn [tasks_of flat_map app]. rewrite app_nil_r, <- app_assoc. reflexivity.
+    + assert (S : stp = true) by (apply L; now left). subst.
+      assert (X : tasks_of (None :: q) = []) by (apply K; right; now left). cbn [tasks_of flat_map app] in X.
+      split; [split|].
+      * intros _. exact X.
+      * intros _. reflexivity.
+      * cbn [tasks_of flat_map app]. now rewrite app_nil_r.
+  - split; [split|now rewrite app_nil_r].
+    + intros [H|H]; [discriminate|]. apply K. now right.
+    + exact L.
+  - destruct run; cbn [s_running s_stopped s_q s_out].
+    + split; [split|]; [reflexivity|intros []|cbn [tasks_of flat_map]; now rewrite !app_nil_r].
+    + split; [split|].
+      * intros _. rewrite tasks_of_app. cbn [tasks_of flat_map app]. rewrite app_nil_r. apply K. now left.
+      * reflexivity.
+      * rewrite tasks_of_app. cbn [tasks_of flat_map app]. now rewrite !app_nil_r.
+Qed.
+
+(* every interleaving of DumpTo, drain steps, Start and Stop - Stop while exchanges still dump:
+   written ++ queued = the DumpTo calls in program order, and once the dumper has been stopped (or
+   is not draining) nothing is left in the queue: no dump write is lost or can block *)
+Theorem stop_loses_nothing async ops :
+  let st := run_sops async ops in
+  s_out st ++ tasks_of (s_q st) = sdumped ops /\
+  ((s_running st = false \/ s_stopped st = true) -> s_out st = sdumped ops).
+Proof.
+  cbv zeta. unfold run_sops.
+  assert (G : forall ops st, sinv async st ->
+              sinv async (fold_left (sstep async) ops st) /\
+              s_out (fold_left (sstep async) ops st) ++ tasks_of (s_q (fold_left (sstep async) ops st)) =
+              (s_out st ++ tasks_of (s_q st)) ++ sdumped ops).
+  { clear. induction ops as [|op r IH]; intros st Hi; cbn [fold_left sdumped flat_map].
+    - split; [exact Hi|now rewrite app_nil_r].
+    - destruct (sstep_inv async st op Hi) as [Hi' E].
+      destruct (IH _ Hi') as [I2 E2]. split; [exact I2|]. rewrite E2, E, <- app_assoc. reflexivity. }
+  destruct (G ops s0) as [[K L] E].
+  - split; [reflexivity|intros []].
+  - cbn [s0 s_out s_q tasks_of flat_map app] in E. split; [exact E|].
+    intro H. assert (X : tasks_of (s_q (fold_left (sstep async) ops s0)) = []).
+    { apply K. destruct H as [H|H]; [now left|right; now left]. }
+    rewrite X, app_nil_r in E. exact E.
+Qed.
+
+(* before the fix: a write dumped between Stop and the drainer's exit is queued behind the mark
+   and stays there *)
+Example old_stop_loses_writes :
+  let t := (7%N, bs "rest of the body") in
+  let ops := [SStart; SStop; SDump t; SDrain; SDrain; SDrain] in
+  s_out (run_sops_old true ops) = [] /\ s_running (run_sops_old true ops) = false /\
+  sdumped ops = [t] /\ s_out (run_sops true ops) = [t].
+Proof. repeat split. Qed.
+
+(* ---------- the request's own buffer across retries ---------- *)
+Definition is_write (op : bop) : bool := match op with BWrite _ => true | BReset => false end.
+
+Lemma run_bops_writes buf ops :
+  forallb is_write ops = true ->
+  fold_left bstep ops buf = buf ++ flat_map (fun op => match op with BWrite p => p | BReset => [] end) ops.
+Proof.
+  revert buf. induction ops as [|op r IH]; intros buf H; cbn [fold_left flat_map].
+  - now rewrite app_nil_r.
+  - cbn [forallb] in H. apply Bool.andb_true_iff in H as [H1 H2]. destruct op; [|discriminate].
+    rewrite IH by assumption. cbn [bstep]. now rewrite app_assoc.
+Qed.
+
+(* whatever the earlier attempts dumped - with or without a response - after the reset that
+   precedes the last attempt the buffer holds exactly that attempt's dump: nothing twice *)
+Theorem buffer_holds_last_attempt before last :
+  forallb is_write last = true ->
+  run_bops (before ++ BReset :: last) =
+  flat_map (fun op => match op with BWrite p => p | BReset => [] end) last.
+Proof.
+  intro H. unfold run_bops. rewrite fold_left_app. cbn [fold_left bstep].
+  now rewrite run_bops_writes.
+Qed.
